@@ -110,6 +110,23 @@ def readString (delim : Ch) : SMode → Str → Str → Token × Str
 
 /-! ### operators -/
 
+/-- `read_operator`, second character is not `=`: the one-character operators `< > = !` -/
+def opSingle (first : Ch) (back : Str) : Token × Str :=
+  if first == 60 then (.operator .less, back)
+  else if first == 62 then (.operator .greater, back)
+  else if first == 61 then (.operator .assign, back)
+  else if first == 33 then (.operator .not, back)
+  else (.error .internalError, back)
+
+/-- `read_operator`, second character is `=`: `?= <= >= == !=` -/
+def opDouble (first : Ch) (r : Str) : Token × Str :=
+  if first == 63 then (.operator .assignUndefined, r)
+  else if first == 60 then (.operator .lessEqual, r)
+  else if first == 62 then (.operator .greaterEqual, r)
+  else if first == 61 then (.operator .equal, r)
+  else if first == 33 then (.operator .notEqual, r)
+  else (.error .internalError, r)
+
 /-- `read_operator`; `rest` is the input after `first`. -/
 def readOperator (first : Ch) (rest : Str) : Token × Str :=
   if first == 45 then (.operator .minus, rest)
@@ -120,25 +137,12 @@ def readOperator (first : Ch) (rest : Str) : Token × Str :=
   else if first == 124 then (.operator .or, rest)
   else if first == 37 then (.operator .modulus, rest)
   else
-    let single (back : Str) : Token × Str :=
-      if first == 60 then (.operator .less, back)
-      else if first == 62 then (.operator .greater, back)
-      else if first == 61 then (.operator .assign, back)
-      else if first == 33 then (.operator .not, back)
-      else (.error .internalError, back)
     match rest with
     | [] =>
       -- `next_char` returned NUL without advancing; `push_back` moves onto `first` again
-      single [first]
+      opSingle first [first]
     | second :: r =>
-      if second == 61 then
-        if first == 63 then (.operator .assignUndefined, r)
-        else if first == 60 then (.operator .lessEqual, r)
-        else if first == 62 then (.operator .greaterEqual, r)
-        else if first == 61 then (.operator .equal, r)
-        else if first == 33 then (.operator .notEqual, r)
-        else (.error .internalError, r)
-      else single (second :: r)
+      if second == 61 then opDouble first r else opSingle first (second :: r)
 
 /-! ### numbers -/
 
@@ -224,13 +228,13 @@ def stopToken (stops : List Ch) (c : Ch) (rest : Str) : Token × Str :=
 
 /-- the identifier loop of `next_token_with_stop`; `acc` is the buffer reversed -/
 def readWord (stops : List Ch) : Str → Str → Token × Str
-  | [], [] => if stops.contains 0 then (.separator 0, []) else (.eoe, [])
-  | [], acc => (classifyWord acc.reverse, [])
+  | [], acc =>
+    if acc.isEmpty then (if stops.contains 0 then (.separator 0, []) else (.eoe, []))
+    else (classifyWord acc.reverse, [])
   | c :: rest, acc =>
     if isStop c then
-      match acc with
-      | [] => stopToken stops c rest
-      | _ => (classifyWord acc.reverse, if c == 0 then rest else c :: rest)
+      if acc.isEmpty then stopToken stops c rest
+      else (classifyWord acc.reverse, if c == 0 then rest else c :: rest)
     else readWord stops rest (c :: acc)
 
 /-- `next_token_with_stop` -/
@@ -241,7 +245,7 @@ def nextToken (stops : List Ch) (inp : Str) : Token × Str :=
     if isDigit c || c == 45 || c == 43 || c == 46 then readNumber 0 (c :: rest) []
     else readWord stops (c :: rest) []
 
-/-- all tokens up to and including the first `eoe`/`error`, at most `fuel` of them; the flag says
+/-- all tokens up to and including the first `eoe`/`error`/NUL separator, at most `fuel` of them; the flag says
 whether the stream was cut by `fuel` -/
 def tokens (stops : List Ch) : Nat → Str → List Token × Bool
   | 0, _ => ([], true)
@@ -249,6 +253,7 @@ def tokens (stops : List Ch) : Nat → Str → List Token × Bool
     match nextToken stops inp with
     | (.eoe, _) => ([.eoe], false)
     | (.error e, _) => ([.error e], false)
+    | (.separator 0, _) => ([.separator 0], false)
     | (t, rest) =>
       let (ts, cut) := tokens stops fuel rest
       (t :: ts, cut)
